@@ -54,8 +54,8 @@ def C13():
             "thorough": [
                 {"unit": "c13_base", "args": ["--part", "S"], "shards": 2, "cores": 1, "timeout": 2400},
                 {"unit": "c13_per", "args": ["--part", "S"], "shards": 4, "cores": 1, "timeout": 2400},
-                {"unit": "c13_base", "args": ["--part", "V"], "shards": 3, "cores": 1, "timeout": 2400},
-                {"unit": "c13_per", "args": ["--part", "V"], "shards": 5, "cores": 1, "timeout": 2400},
+                {"unit": "c13_base", "args": ["--part", "V"], "shards": 4, "cores": 1, "timeout": 2400},
+                {"unit": "c13_per", "args": ["--part", "V"], "shards": 8, "cores": 1, "timeout": 2400},
             ],
         },
     }
